@@ -8,6 +8,7 @@ import (
 	"go/types"
 	"sort"
 	"strings"
+	"unicode"
 
 	"golang.org/x/tools/go/cfg"
 	"golang.org/x/tools/go/packages"
@@ -2549,4 +2550,1195 @@ func ro3InPlaceFilterOnOwnedSlices(w *World) {
 		}
 	}
 	w.info("in-place-filter|count", token.NoPos, fmt.Sprintf("%d in-place filter idioms (x := y[:0] then append) examined", n))
+}
+
+// RIX (C27 and module-wide exploration): the index of a range over a re-sliced slice is an index
+// into the *view*. In `for k := range X[lo:]` (lo not 0) the key k counts from the start of the
+// view; indexing X itself with it (`X[k]`) addresses element k, not element lo+k. The flag meant
+// for a transitive import reached through `import public` lands on another file's entry.
+func rixScan(w *World, p *packages.Package) (nLoops int, bad []string, badPos []token.Pos) {
+	info := p.TypesInfo
+	for _, b := range allFuncBodies(p) {
+		if b.Lit != nil {
+			continue
+		}
+		ast.Inspect(b.Body, func(x ast.Node) bool {
+			rs, ok := x.(*ast.RangeStmt)
+			if !ok || rs.Key == nil {
+				return true
+			}
+			se, ok := ast.Unparen(rs.X).(*ast.SliceExpr)
+			if !ok || se.Low == nil {
+				return true
+			}
+			if tv, ok := info.Types[se.Low]; ok && tv.Value != nil {
+				if v, ok := constant.Int64Val(constant.ToInt(tv.Value)); ok && v == 0 {
+					return true
+				}
+			}
+			kid, ok := rs.Key.(*ast.Ident)
+			if !ok || kid.Name == "_" {
+				return true
+			}
+			kobj := info.Defs[kid]
+			if kobj == nil {
+				kobj = info.Uses[kid]
+			}
+			if kobj == nil {
+				return true
+			}
+			if _, isSlice := info.TypeOf(se.X).Underlying().(*types.Slice); !isSlice {
+				if _, isArr := info.TypeOf(se.X).Underlying().(*types.Array); !isArr {
+					return true
+				}
+			}
+			nLoops++
+			base := types.ExprString(se.X)
+			ast.Inspect(rs.Body, func(y ast.Node) bool {
+				ix, ok := y.(*ast.IndexExpr)
+				if !ok || types.ExprString(ix.X) != base {
+					return true
+				}
+				if id, ok := ast.Unparen(ix.Index).(*ast.Ident); ok && info.Uses[id] == kobj {
+					bad = append(bad, fmt.Sprintf("%s: %s indexes %s with the key of `range %s` (a view that starts at %s)", b.Label, types.ExprString(ix), base, types.ExprString(se), types.ExprString(se.Low)))
+					badPos = append(badPos, ix.Pos())
+				}
+				return true
+			})
+			return true
+		})
+	}
+	return
+}
+
+func rixViewIndex(w *World) {
+	w.rule("RIX")
+	n := 0
+	for _, rel := range []string{"experimental/ir", "experimental/fdp", "experimental/parser", "experimental/internal/lexer"} {
+		p := w.ByPath[modPath+"/"+rel]
+		if p == nil {
+			continue
+		}
+		loops, bad, pos := rixScan(w, p)
+		n += loops
+		for i, m := range bad {
+			w.violation("view-index|"+m[:strings.Index(m, ":")]+"|"+fmt.Sprint(i), pos[i], m+": the key counts from the start of the view, so the element addressed is not the one being visited — here the visibility flag of a transitively imported file is set on another file's entry, and a file the stable compiler accepts is rejected with an unresolved name")
+		}
+	}
+	if n > 0 {
+		w.ok("view-index|loops", token.NoPos, fmt.Sprintf("%d loops range over a re-sliced slice with a key; none indexes the underlying slice with that key", n))
+	} else {
+		w.info("view-index|loops", token.NoPos, "no loop ranges over a re-sliced slice with a key")
+	}
+}
+
+// RV6 (C29): a dispatch predicate implies that the callee consumes. loop() pops a rune r, and a
+// case such as `unicode.IsDigit(r)` rewinds and hands over to a token lexer whose own loop peeks
+// the same rune and pops it only if *its* condition holds (lexRawNumber: '.', '_', IsDigit,
+// IsLetter, 'e'/'E'). If the dispatch accepts a rune the callee does not (IsNumber also holds for
+// ½ ² ① Ⅳ), the callee consumes nothing, pushes a zero-length token, and the progress check turns
+// that into an internal error: the token stream stops there and the rest of the file is covered
+// by no token. For every case of loop()'s rune switch that rewinds by the rune's width and calls a
+// lexer of the package, the case condition P and the condition C under which the callee's first
+// peeked rune is popped are both read from the source and evaluated over a model of runes (all of
+// ASCII plus representatives of the Unicode categories Nd, No, Nl, Lu/Ll/Lo, Mn, Cf, Zs): P ⇒ C.
+func rv6DispatchImpliesConsumption(w *World) {
+	w.rule("RV6")
+	const rel = "experimental/internal/lexer"
+	p := w.pkg(rel)
+	loop := w.fn(rel, "loop")
+	if p == nil || loop == nil {
+		return
+	}
+	info := p.TypesInfo
+	model := []rune{}
+	for r := rune(0); r < 128; r++ {
+		model = append(model, r)
+	}
+	model = append(model, 0x0663, 0x096B, 0x00BD, 0x00B2, 0x2460, 0x3251, 0x2163, 0x2180, 0x00E9, 0x03BB, 0x0416, 0x4E2D, 0x01C5, 0x0301, 0x200D, 0x00AD, 0xFEFF, 0x00A0, 0x2028, 0x20AC, 0x1D7D8, 0x1F389)
+	// the switch whose cases test the popped rune
+	var sw *ast.SwitchStmt
+	var rName string
+	ast.Inspect(loop.Decl.Body, func(x ast.Node) bool {
+		as, ok := x.(*ast.AssignStmt)
+		if ok && len(as.Lhs) == 1 && len(as.Rhs) == 1 {
+			if c, ok := ast.Unparen(as.Rhs[0]).(*ast.CallExpr); ok {
+				if s, ok := ast.Unparen(c.Fun).(*ast.SelectorExpr); ok && s.Sel.Name == "pop" {
+					rName = render(as.Lhs[0])
+				}
+			}
+		}
+		if s, ok := x.(*ast.SwitchStmt); ok && s.Tag == nil && rName != "" && sw == nil && s.Pos() > 0 {
+			// the first tagless switch after `r := l.pop()` that mentions r in a case
+			mentions := false
+			for _, c := range s.Body.List {
+				for _, e := range c.(*ast.CaseClause).List {
+					ast.Inspect(e, func(y ast.Node) bool {
+						if id, ok := y.(*ast.Ident); ok && id.Name == rName {
+							mentions = true
+						}
+						return true
+					})
+				}
+			}
+			if mentions {
+				sw = s
+			}
+		}
+		return true
+	})
+	if sw == nil {
+		w.undecided("dispatch-implies-consumption|switch", loop.Decl.Pos(), "no switch over the popped rune found in loop()")
+		return
+	}
+	n := 0
+	for _, c := range sw.Body.List {
+		cc := c.(*ast.CaseClause)
+		if len(cc.List) == 0 {
+			continue
+		}
+		// rewinds by RuneLen(r) and calls a lexer function of the package?
+		rewinds := false
+		var target *types.Func
+		for _, st := range cc.Body {
+			ast.Inspect(st, func(y ast.Node) bool {
+				if as, ok := y.(*ast.AssignStmt); ok && as.Tok == token.SUB_ASSIGN && len(as.Rhs) == 1 {
+					if rc, ok := ast.Unparen(as.Rhs[0]).(*ast.CallExpr); ok {
+						if f := callee(info, rc); f != nil && f.Name() == "RuneLen" {
+							rewinds = true
+						}
+					}
+				}
+				if ce, ok := y.(*ast.CallExpr); ok && target == nil {
+					if f := callee(info, ce); f != nil && f.Pkg() == p.Types && strings.HasPrefix(f.Name(), "lex") {
+						target = f
+					}
+				}
+				return true
+			})
+		}
+		if !rewinds || target == nil {
+			continue
+		}
+		// the callee's first peek loop (followed through one level of direct calls)
+		var popConds []ast.Expr
+		var peekVar string
+		var find func(f *types.Func, depth int)
+		find = func(f *types.Func, depth int) {
+			d := w.decls[f.Origin()]
+			if d == nil || d.Body == nil || popConds != nil || depth > 2 {
+				return
+			}
+			for _, st := range d.Body.List {
+				if fs, ok := st.(*ast.ForStmt); ok {
+					// r := l.peek() ; if C1 { l.pop() … } else if C2 { l.pop() } else { break }
+					for _, bs := range fs.Body.List {
+						if as, ok := bs.(*ast.AssignStmt); ok && len(as.Lhs) == 1 && len(as.Rhs) == 1 {
+							if c, ok := ast.Unparen(as.Rhs[0]).(*ast.CallExpr); ok {
+								if s, ok := ast.Unparen(c.Fun).(*ast.SelectorExpr); ok && s.Sel.Name == "peek" {
+									peekVar = render(as.Lhs[0])
+								}
+							}
+						}
+						if ifs, ok := bs.(*ast.IfStmt); ok && peekVar != "" {
+							for cur := ifs; cur != nil; {
+								pops := false
+								if len(cur.Body.List) > 0 {
+									ast.Inspect(cur.Body.List[0], func(y ast.Node) bool {
+										if ce, ok := y.(*ast.CallExpr); ok {
+											if s, ok := ast.Unparen(ce.Fun).(*ast.SelectorExpr); ok && s.Sel.Name == "pop" {
+												pops = true
+											}
+										}
+										return true
+									})
+								}
+								if pops {
+									popConds = append(popConds, cur.Cond)
+								}
+								next, _ := cur.Else.(*ast.IfStmt)
+								cur = next
+							}
+						}
+					}
+					if popConds != nil {
+						return
+					}
+				}
+				// first statement is a call into another lexer function: follow it
+				ast.Inspect(st, func(y ast.Node) bool {
+					if ce, ok := y.(*ast.CallExpr); ok && popConds == nil {
+						if g := callee(info, ce); g != nil && g.Pkg() == p.Types && g != f {
+							find(g, depth+1)
+						}
+					}
+					return popConds == nil
+				})
+				if popConds != nil {
+					return
+				}
+			}
+		}
+		find(target, 0)
+		key := "dispatch-implies-consumption|" + target.Name()
+		if popConds == nil {
+			w.info(key, cc.Pos(), "the callee does not have the peek-and-pop loop shape; not decided")
+			continue
+		}
+		n++
+		var witness []string
+		for _, r := range model {
+			pHolds := false
+			for _, e := range cc.List {
+				if evalRunePred(info, e, rName, r, true) != triFalse {
+					pHolds = true
+				}
+			}
+			if !pHolds {
+				continue
+			}
+			cHolds := false
+			for _, e := range popConds {
+				if evalRunePred(info, e, peekVar, r, false) == triTrue {
+					cHolds = true
+				}
+			}
+			if !cHolds {
+				witness = append(witness, fmt.Sprintf("%q (U+%04X)", r, r))
+			}
+		}
+		if len(witness) == 0 {
+			w.ok(key, cc.Pos(), fmt.Sprintf("every rune of the model (%d) that the case accepts is popped by %s's first iteration", len(model), target.Name()))
+		} else {
+			if len(witness) > 5 {
+				witness = append(witness[:5], "…")
+			}
+			w.violation(key, cc.Pos(), "the case hands "+strings.Join(witness, ", ")+" to "+target.Name()+", whose own loop does not pop them: it consumes nothing and pushes a zero-length token, the progress check raises an internal error, the token stream stops there and the rest of the input is covered by no token (open brackets before it are neither matched nor reported)")
+		}
+	}
+	w.floor("rune-dispatch cases that rewind into a peek-and-pop lexer", n, 1)
+}
+
+// evalRunePred evaluates a predicate over one rune, knowing the unicode package. Atoms it cannot
+// evaluate take the value `unknownAs` (true for the dispatch side, false for the consumer side).
+func evalRunePred(info *types.Info, e ast.Expr, v string, r rune, unknownAs bool) tri {
+	e = ast.Unparen(e)
+	switch x := e.(type) {
+	case *ast.BinaryExpr:
+		if x.Op == token.LAND || x.Op == token.LOR {
+			a, b := evalRunePred(info, x.X, v, r, unknownAs), evalRunePred(info, x.Y, v, r, unknownAs)
+			if x.Op == token.LAND {
+				if a == triFalse || b == triFalse {
+					return triFalse
+				}
+				if a == triTrue && b == triTrue {
+					return triTrue
+				}
+				return triUnknown
+			}
+			if a == triTrue || b == triTrue {
+				return triTrue
+			}
+			if a == triFalse && b == triFalse {
+				return triFalse
+			}
+			return triUnknown
+		}
+	case *ast.UnaryExpr:
+		if x.Op == token.NOT {
+			switch evalRunePred(info, x.X, v, r, !unknownAs) {
+			case triTrue:
+				return triFalse
+			case triFalse:
+				return triTrue
+			}
+			return triUnknown
+		}
+	case *ast.CallExpr:
+		if f := callee(info, x); f != nil && f.Pkg() != nil && f.Pkg().Path() == "unicode" && len(x.Args) == 1 && render(x.Args[0]) == v {
+			switch f.Name() {
+			case "IsDigit":
+				return triOf(unicode.IsDigit(r))
+			case "IsNumber":
+				return triOf(unicode.IsNumber(r))
+			case "IsLetter":
+				return triOf(unicode.IsLetter(r))
+			case "IsSpace":
+				return triOf(unicode.IsSpace(r))
+			case "IsPrint":
+				return triOf(unicode.IsPrint(r))
+			case "IsUpper":
+				return triOf(unicode.IsUpper(r))
+			case "IsLower":
+				return triOf(unicode.IsLower(r))
+			case "IsPunct":
+				return triOf(unicode.IsPunct(r))
+			case "IsControl":
+				return triOf(unicode.IsControl(r))
+			case "IsMark":
+				return triOf(unicode.IsMark(r))
+			case "IsSymbol":
+				return triOf(unicode.IsSymbol(r))
+			}
+		}
+	}
+	t := evalWithStrings(info, e, v, int64(r))
+	if t == triUnknown {
+		return triOf(unknownAs)
+	}
+	return t
+}
+
+// RP7 (C26): the reader's "too short to be an escape" guard passes through exactly the lone
+// trailing backslash. linker.unescape copies a byte through unchanged when it is not the start of
+// an escape or when fewer than two bytes remain; every complete two-byte escape — also the one
+// that ends the text (`line\n`) — must reach the escape switch, or the linker's Default() of a
+// bytes field disagrees with the text the writer produced (and with protodesc on the same proto).
+// The pass-through guard (the first terminating `if` of the loop) is evaluated on a finite model:
+// text lengths 1..6, the backslash at every position; with the backslash at the current position
+// the guard must hold exactly when fewer than two bytes remain from it.
+func rp7UnescapeShortGuard(w *World) {
+	w.rule("RP7")
+	fr := w.fn("linker", "unescape")
+	if fr == nil {
+		return
+	}
+	info := fr.Pkg.TypesInfo
+	var loop *ast.ForStmt
+	for _, st := range fr.Decl.Body.List {
+		if f, ok := st.(*ast.ForStmt); ok && loop == nil {
+			loop = f
+		}
+	}
+	if loop == nil || fr.Decl.Type.Params.NumFields() != 1 || len(fr.Decl.Type.Params.List[0].Names) != 1 {
+		w.undecided("unescape-short-guard|shape", fr.Decl.Pos(), "unescape is no longer a loop over its string parameter")
+		return
+	}
+	sName := fr.Decl.Type.Params.List[0].Names[0].Name
+	// position variable: i := strings.IndexByte(s, '\\') (optional)
+	posVar := ""
+	var guard *ast.IfStmt
+	for _, st := range loop.Body.List {
+		if as, ok := st.(*ast.AssignStmt); ok && len(as.Lhs) == 1 && len(as.Rhs) == 1 {
+			if c, ok := ast.Unparen(as.Rhs[0]).(*ast.CallExpr); ok {
+				if f := callee(info, c); f != nil && f.Pkg() != nil && f.Pkg().Path() == "strings" && strings.HasPrefix(f.Name(), "Index") {
+					posVar = render(as.Lhs[0])
+				}
+			}
+		}
+		if ifs, ok := st.(*ast.IfStmt); ok && guard == nil && len(ifs.Body.List) > 0 {
+			switch last := ifs.Body.List[len(ifs.Body.List)-1].(type) {
+			case *ast.BranchStmt:
+				if last.Tok == token.CONTINUE || last.Tok == token.BREAK {
+					guard = ifs
+				}
+			case *ast.ReturnStmt:
+				guard = ifs
+			}
+		}
+	}
+	if guard == nil {
+		w.undecided("unescape-short-guard|guard", loop.Pos(), "no pass-through guard found at the top of unescape's loop")
+		return
+	}
+	var eval func(e ast.Expr, L, q int64) tri
+	eval = func(e ast.Expr, L, q int64) tri {
+		e = ast.Unparen(e)
+		if be, ok := e.(*ast.BinaryExpr); ok {
+			switch be.Op {
+			case token.LOR, token.LAND:
+				a, b := eval(be.X, L, q), eval(be.Y, L, q)
+				if be.Op == token.LOR {
+					if a == triTrue || b == triTrue {
+						return triTrue
+					}
+					if a == triFalse && b == triFalse {
+						return triFalse
+					}
+					return triUnknown
+				}
+				if a == triFalse || b == triFalse {
+					return triFalse
+				}
+				if a == triTrue && b == triTrue {
+					return triTrue
+				}
+				return triUnknown
+			case token.EQL, token.NEQ:
+				// s[pos] compared with '\\': we are looking at the backslash
+				if ix, ok := ast.Unparen(be.X).(*ast.IndexExpr); ok && render(ix.X) == sName {
+					return triOf(be.Op == token.EQL)
+				}
+			}
+		}
+		if ue, ok := e.(*ast.UnaryExpr); ok && ue.Op == token.NOT {
+			switch eval(ue.X, L, q) {
+			case triTrue:
+				return triFalse
+			case triFalse:
+				return triTrue
+			}
+			return triUnknown
+		}
+		env := &numEnv{info: info, vars: map[string]num{}, lenOf: func(x ast.Expr) (int64, bool) {
+			if render(x) == sName {
+				return L, true
+			}
+			return 0, false
+		}}
+		if posVar != "" {
+			env.vars[posVar] = num{i: q}
+		}
+		v, ok := env.eval(e)
+		if !ok || !v.isBool {
+			return triUnknown
+		}
+		return triOf(v.b)
+	}
+	var bad []string
+	points := 0
+	for L := int64(1); L <= 6; L++ {
+		for q := int64(0); q < L; q++ {
+			if posVar == "" && q != 0 {
+				continue // the reader consumes byte by byte: the backslash is at s[0]
+			}
+			points++
+			remaining := L - q
+			got := eval(guard.Cond, L, q)
+			want := remaining < 2
+			if got == triUnknown {
+				bad = append(bad, fmt.Sprintf("undecidable at len=%d pos=%d", L, q))
+				continue
+			}
+			if (got == triTrue) != want {
+				bad = append(bad, fmt.Sprintf("with %d byte(s) remaining from the backslash (len %d, backslash at %d) the guard %s", remaining, L, q, map[bool]string{true: "passes the bytes through undecoded", false: "lets a lone backslash into the escape switch"}[got == triTrue]))
+			}
+		}
+	}
+	key := "unescape-short-guard"
+	if len(bad) == 0 {
+		w.ok(key, guard.Pos(), fmt.Sprintf("evaluated `%s` on %d (length, position) points: a backslash is passed through exactly when it is the last byte", types.ExprString(guard.Cond), points))
+	} else {
+		if len(bad) > 3 {
+			bad = append(bad[:3], "…")
+		}
+		w.violation(key, guard.Pos(), "the pass-through guard `"+types.ExprString(guard.Cond)+"` is wrong at the end of the text: "+strings.Join(bad, "; ")+" — a value that ends in a two-character escape (`\\n`, `\\t`, `\\\"`, `\\\\`) is not decoded, so Default() of a bytes field differs from what the writer encoded")
+	}
+}
+
+// RV7 (C29): a token lexer starts its token where the caller started consuming. In loop()'s rune
+// switch a case pops a rune, possibly consumes more (takeWhile), rewinds, and hands over to a
+// lexX(l, …) function that remembers `start := l.cursor` (or an expression of the cursor) as the
+// beginning of the token it will push. Tokens tile the input only if that start is the position
+// of the first byte consumed since the last push. For each such hand-over the bytes consumed on
+// the straight path to the call are accounted symbolically as a linear form over the atoms
+// width(r), len(<consumed text>) and constants (pop: +width(r); takeWhile: +len(result);
+// `l.cursor ±= E`; width(r) = 1 under a case `r == <ASCII constant>`), the callee's start
+// expression is added with the call's arguments substituted, and the form must be identically
+// zero. `start := l.cursor - len(sigil)` with the *trimmed* identifier passed for sigil, after
+// len(rawIdent) bytes were consumed, leaves len(rawIdent) - len(id): the string token starts late
+// whenever unprintable characters were trimmed, and every later token is shifted.
+func rv7TokenStartAccounting(w *World) {
+	w.rule("RV7")
+	const rel = "experimental/internal/lexer"
+	p := w.pkg(rel)
+	loop := w.fn(rel, "loop")
+	if p == nil || loop == nil {
+		return
+	}
+	info := p.TypesInfo
+	type lin map[string]int
+	add := func(a lin, k string, c int) {
+		a[k] += c
+		if a[k] == 0 {
+			delete(a, k)
+		}
+	}
+	// linear form of an int expression over len(x) / RuneLen(x) / constants; ok=false when not linear
+	var linOf func(e ast.Expr, sign int, out lin, subst map[string]string) bool
+	linOf = func(e ast.Expr, sign int, out lin, subst map[string]string) bool {
+		e = ast.Unparen(e)
+		if tv, ok := info.Types[e]; ok && tv.Value != nil {
+			if v, ok := constant.Int64Val(constant.ToInt(tv.Value)); ok {
+				add(out, "1", sign*int(v))
+				return true
+			}
+		}
+		switch x := e.(type) {
+		case *ast.BinaryExpr:
+			switch x.Op {
+			case token.ADD:
+				return linOf(x.X, sign, out, subst) && linOf(x.Y, sign, out, subst)
+			case token.SUB:
+				return linOf(x.X, sign, out, subst) && linOf(x.Y, -sign, out, subst)
+			}
+		case *ast.CallExpr:
+			if isBuiltinCall(info, x, "len") && len(x.Args) == 1 {
+				name := render(x.Args[0])
+				if s, ok := subst[name]; ok {
+					name = s
+				}
+				if name == `""` {
+					return true
+				}
+				add(out, "len("+name+")", sign)
+				return true
+			}
+			if f := callee(info, x); f != nil && f.Name() == "RuneLen" && len(x.Args) == 1 {
+				add(out, "width("+render(x.Args[0])+")", sign)
+				return true
+			}
+		}
+		return false
+	}
+	isCursor := func(e ast.Expr) bool {
+		s, ok := ast.Unparen(e).(*ast.SelectorExpr)
+		return ok && s.Sel.Name == "cursor"
+	}
+	// effect of one statement on the pending count; returns false if it touches the cursor in a way not understood
+	apply := func(st ast.Stmt, pending lin) bool {
+		switch s := st.(type) {
+		case *ast.AssignStmt:
+			if len(s.Lhs) == 1 && len(s.Rhs) == 1 {
+				if isCursor(s.Lhs[0]) {
+					switch s.Tok {
+					case token.ADD_ASSIGN:
+						return linOf(s.Rhs[0], 1, pending, nil)
+					case token.SUB_ASSIGN:
+						return linOf(s.Rhs[0], -1, pending, nil)
+					}
+					return false
+				}
+				if c, ok := ast.Unparen(s.Rhs[0]).(*ast.CallExpr); ok {
+					if sel, ok := ast.Unparen(c.Fun).(*ast.SelectorExpr); ok {
+						switch sel.Sel.Name {
+						case "pop":
+							add(pending, "width("+render(s.Lhs[0])+")", 1)
+						case "takeWhile":
+							add(pending, "len("+render(s.Lhs[0])+")", 1)
+						}
+					}
+				}
+			}
+		case *ast.IncDecStmt:
+			if isCursor(s.X) {
+				if s.Tok == token.INC {
+					add(pending, "1", 1)
+				} else {
+					add(pending, "1", -1)
+				}
+			}
+		}
+		return true
+	}
+	// callee start offset (relative to the cursor at entry), with parameters substituted
+	var calleeStart func(f *types.Func, args []ast.Expr, out lin, depth int) bool
+	calleeStart = func(f *types.Func, args []ast.Expr, out lin, depth int) bool {
+		d := w.decls[f.Origin()]
+		if d == nil || d.Body == nil || len(d.Body.List) == 0 || depth > 2 {
+			return false
+		}
+		subst := map[string]string{}
+		i := 0
+		for _, fl := range d.Type.Params.List {
+			for _, nm := range fl.Names {
+				if i < len(args) {
+					subst[nm.Name] = render(args[i])
+					if tv, ok := info.Types[args[i]]; ok && tv.Value != nil && tv.Value.Kind() == constant.String && constant.StringVal(tv.Value) == "" {
+						subst[nm.Name] = `""`
+					}
+				}
+				i++
+			}
+		}
+		first := d.Body.List[0]
+		if as, ok := first.(*ast.AssignStmt); ok && len(as.Lhs) == 1 && len(as.Rhs) == 1 {
+			rhs := ast.Unparen(as.Rhs[0])
+			if isCursor(rhs) {
+				return true // start := l.cursor
+			}
+			if be, ok := rhs.(*ast.BinaryExpr); ok && isCursor(be.X) {
+				switch be.Op {
+				case token.SUB:
+					return linOf(be.Y, 1, out, subst) // start is earlier by Y: compensates Y consumed bytes... sign handled by caller
+				case token.ADD:
+					return linOf(be.Y, -1, out, subst)
+				}
+			}
+			// tok := lexOther(l): follow
+			if c, ok := rhs.(*ast.CallExpr); ok {
+				if g := callee(info, c); g != nil && g.Pkg() == p.Types && strings.HasPrefix(g.Name(), "lex") {
+					return calleeStart(g, c.Args, out, depth+1)
+				}
+			}
+		}
+		return false
+	}
+	// the rune switch and the pop before it
+	var sw *ast.SwitchStmt
+	var popStmt ast.Stmt
+	var walkList func(list []ast.Stmt)
+	walkList = func(list []ast.Stmt) {
+		for i, st := range list {
+			if as, ok := st.(*ast.AssignStmt); ok && len(as.Rhs) == 1 {
+				if c, ok := ast.Unparen(as.Rhs[0]).(*ast.CallExpr); ok {
+					if sel, ok := ast.Unparen(c.Fun).(*ast.SelectorExpr); ok && sel.Sel.Name == "pop" && i+1 < len(list) {
+						if s, ok := list[i+1].(*ast.SwitchStmt); ok && s.Tag == nil && sw == nil {
+							sw, popStmt = s, st
+						}
+					}
+				}
+			}
+			if f, ok := st.(*ast.ForStmt); ok {
+				walkList(f.Body.List)
+			}
+		}
+	}
+	walkList(loop.Decl.Body.List)
+	if sw == nil {
+		w.undecided("token-start|switch", loop.Decl.Pos(), "no `r := l.pop()` followed by a rune switch found in loop()")
+		return
+	}
+	rName := render(popStmt.(*ast.AssignStmt).Lhs[0])
+	n := 0
+	for _, c := range sw.Body.List {
+		cc := c.(*ast.CaseClause)
+		// ASCII constant case: width(r) = 1
+		asciiCase := len(cc.List) > 0
+		for _, e := range cc.List {
+			be, ok := ast.Unparen(e).(*ast.BinaryExpr)
+			if !ok || be.Op != token.EQL || render(be.X) != rName {
+				asciiCase = false
+				continue
+			}
+			tv, ok := info.Types[be.Y]
+			if !ok || tv.Value == nil {
+				asciiCase = false
+				continue
+			}
+			if v, ok := constant.Int64Val(constant.ToInt(tv.Value)); !ok || v >= 128 {
+				asciiCase = false
+			}
+		}
+		// find hand-overs: calls to lex* at clause top level or inside a top-level if
+		var visit func(list []ast.Stmt, pending lin)
+		visit = func(list []ast.Stmt, pending lin) {
+			cur := lin{}
+			for k, v := range pending {
+				cur[k] = v
+			}
+			for _, st := range list {
+				// a hand-over in this statement (expression statement or inside an if on the path)
+				if es, ok := st.(*ast.ExprStmt); ok {
+					if call, ok := es.X.(*ast.CallExpr); ok {
+						if f := callee(info, call); f != nil && f.Pkg() == p.Types && strings.HasPrefix(f.Name(), "lex") {
+							n++
+							form := lin{}
+							for k, v := range cur {
+								form[k] = v
+							}
+							okStart := calleeStart(f, call.Args, form, 0)
+							// calleeStart added (+) what the callee's start compensates; pending must cancel: pending - compensation = 0
+							// (calleeStart put compensation with sign +1 for `cursor - Y`; flip it)
+							res := lin{}
+							for k, v := range cur {
+								add(res, k, v)
+							}
+							comp := lin{}
+							calleeStart(f, call.Args, comp, 0)
+							for k, v := range comp {
+								add(res, k, -v)
+							}
+							if asciiCase {
+								if v, ok := res["width("+rName+")"]; ok {
+									add(res, "1", v)
+									delete(res, "width("+rName+")")
+								}
+							}
+							key := fmt.Sprintf("token-start|%s|%s", f.Name(), types.ExprString(call))
+							switch {
+							case !okStart:
+								w.info(key, call.Pos(), "the callee's token start is not of the form `start := l.cursor [± E]`; not decided")
+							case len(res) == 0:
+								w.ok(key, call.Pos(), "the bytes consumed before the hand-over are all rewound or compensated by the callee's start expression: the token begins where consumption began")
+							default:
+								var terms []string
+								for k, v := range res {
+									terms = append(terms, fmt.Sprintf("%+d·%s", v, k))
+								}
+								sort.Strings(terms)
+								w.violation(key, call.Pos(), "at this hand-over the token start differs from the first consumed byte by "+strings.Join(terms, " ")+", which is not identically zero: when the two lengths differ (unprintable characters trimmed from the identifier) the token pushed by "+f.Name()+" starts late, the cursor and the end of the token stream diverge, every later token is shifted and the last bytes of the file are covered by no token")
+							}
+						}
+					}
+				}
+				if ifs, ok := st.(*ast.IfStmt); ok {
+					visit(ifs.Body.List, cur)
+					continue
+				}
+				if !apply(st, cur) {
+					return
+				}
+			}
+		}
+		start := lin{}
+		apply(popStmt, start)
+		visit(cc.Body, start)
+	}
+	w.floor("hand-overs from loop()'s rune switch to token lexers", n, 3)
+}
+
+// RP8 (C25, C12): the scanners never depend on a line fitting a buffer. bufio.Reader.ReadSlice and
+// ReadLine stop at the reader's buffer size (4096 bytes by default): ReadSlice returns
+// bufio.ErrBufferFull, ReadLine sets isPrefix. A skipper that uses them without handling that
+// case turns a `//` comment line of 4 KB into a scan error (or silently splits it), on a file the
+// full parser accepts. In the lexers of parser and parser/fastscan such a call must be in a
+// function that also handles bufio.ErrBufferFull / the isPrefix result.
+func rp8NoBoundedLineReads(w *World) {
+	w.rule("RP8")
+	n, nReads := 0, 0
+	for _, rel := range []string{"parser/fastscan", "parser"} {
+		p := w.ByPath[modPath+"/"+rel]
+		if p == nil {
+			continue
+		}
+		info := p.TypesInfo
+		for _, b := range allFuncBodies(p) {
+			if b.Lit != nil || strings.HasSuffix(w.Fset.Position(b.Decl.Pos()).Filename, ".y.go") {
+				continue
+			}
+			var calls []*ast.CallExpr
+			handles := false
+			ast.Inspect(b.Body, func(x ast.Node) bool {
+				switch y := x.(type) {
+				case *ast.CallExpr:
+					if f := callee(info, y); f != nil && f.Pkg() != nil && f.Pkg().Path() == "bufio" {
+						nReads++
+						if f.Name() == "ReadSlice" || f.Name() == "ReadLine" {
+							calls = append(calls, y)
+						}
+					}
+				case *ast.SelectorExpr:
+					if y.Sel.Name == "ErrBufferFull" {
+						handles = true
+					}
+				case *ast.Ident:
+					if y.Name == "isPrefix" {
+						handles = true
+					}
+				}
+				return true
+			})
+			for _, c := range calls {
+				n++
+				key := "bounded-line-read|" + b.Label + "|" + types.ExprString(c.Fun)
+				if handles {
+					w.ok(key, c.Pos(), "the buffer-full / isPrefix case is handled in the same function")
+				} else {
+					w.violation(key, c.Pos(), types.ExprString(c.Fun)+" stops at the buffer size of the bufio.Reader (4096 bytes) and reports bufio.ErrBufferFull / isPrefix, which "+b.Label+" does not handle: a comment line longer than the buffer makes the scan fail (or be cut) on a file the full parser accepts")
+				}
+			}
+		}
+	}
+	w.info("bounded-line-read|count", token.NoPos, fmt.Sprintf("%d bufio calls in the scanners, %d of them ReadSlice/ReadLine", nReads, n))
+	w.floor("bufio calls in parser and parser/fastscan", nReads, 2)
+}
+
+// RIK3 (C40): value lists of different entries never share writable storage. Intersect.Insert
+// splits entries; the pieces start out with the same value list (`orig`), and the piece that
+// overlaps the new interval gets `append(list, value)`. If that append is made on the un-clipped
+// list it writes into the spare capacity of an array that the other piece still uses: the next
+// value appended to that other piece overwrites it (after a, b, c on [0,9], d on [5,9] and e on
+// [0,4], the points 5..9 report [a b c e]). Every append whose result is stored as an entry's
+// Value (field assignment or `Value:` in an Entry literal) must therefore take a clipped or
+// cloned list (slices.Clip / slices.Clone) or a fresh literal as its first argument.
+func rik3ValueListsNotShared(w *World) {
+	w.rule("RIK3")
+	p := w.pkg("internal/interval")
+	if p == nil {
+		return
+	}
+	info := p.TypesInfo
+	n := 0
+	for _, b := range allFuncBodies(p) {
+		if b.Lit != nil || !strings.Contains(b.Label, "Intersect") {
+			continue
+		}
+		check := func(site ast.Node, e ast.Expr) {
+			c, ok := ast.Unparen(e).(*ast.CallExpr)
+			if !ok || !isBuiltinCall(info, c, "append") || len(c.Args) < 2 {
+				return
+			}
+			n++
+			first := ast.Unparen(c.Args[0])
+			key := "value-list-clipped|" + b.Label + "|" + types.ExprString(c)
+			safe := false
+			switch f := first.(type) {
+			case *ast.CallExpr:
+				if g := callee(info, f); g != nil && g.Pkg() != nil && g.Pkg().Path() == "slices" && (g.Name() == "Clip" || g.Name() == "Clone") {
+					safe = true
+				}
+			case *ast.CompositeLit:
+				safe = true
+			}
+			if id, ok := first.(*ast.Ident); ok && id.Name == "nil" {
+				safe = true
+			}
+			if safe {
+				w.ok(key, site.Pos(), "the list is clipped or copied before the value is appended: the append allocates, no other entry's list is written")
+			} else {
+				w.violation(key, site.Pos(), types.ExprString(c)+" is stored as an entry's value list but appends to "+types.ExprString(first)+" as it is: when that list has spare capacity the value is written into an array that the other piece of the split entry still uses, and the next append to that piece overwrites it — a point lookup then returns a value whose interval does not contain the point")
+			}
+		}
+		ast.Inspect(b.Body, func(x ast.Node) bool {
+			switch s := x.(type) {
+			case *ast.AssignStmt:
+				for i, l := range s.Lhs {
+					if sel, ok := ast.Unparen(l).(*ast.SelectorExpr); ok && sel.Sel.Name == "Value" && i < len(s.Rhs) {
+						// only entries that live in the map: pointers to Entry
+						if t := info.TypeOf(sel.X); t != nil {
+							if _, isPtr := t.(*types.Pointer); isPtr {
+								check(s, s.Rhs[i])
+							}
+						}
+					}
+				}
+			case *ast.KeyValueExpr:
+				if render(s.Key) == "Value" {
+					check(s, s.Value)
+				}
+			}
+			return true
+		})
+	}
+	w.floor("appends stored as an entry's value list in Intersect", n, 2)
+}
+
+// RIK4 (C40): Nesting.Insert accepts an interval into a set only when it is disjoint from, or
+// strictly nested in, the interval found by Seek(end). The sets are keyed by the intervals' ends
+// (RIK), so "strictly" matters twice: an interval that shares its end with the found one is not
+// strictly nested, and storing it under the same key replaces the found one — it vanishes from
+// the collection. The guards that follow a successful `iter.Seek(end)` and precede `iter.Prev()`
+// are read from the source and evaluated on a finite model (new interval [a,b], found [c,d] with
+// c <= d and b <= d, which is Seek's post-condition, endpoints 0..4): whenever no guard rejects,
+// b < c or (c < a and b < d) must hold.
+func rik4NestingStrict(w *World) {
+	w.rule("RIK4")
+	fr := w.fn("internal/interval", "(*Nesting).Insert")
+	if fr == nil {
+		return
+	}
+	info := fr.Pkg.TypesInfo
+	var pnames []string
+	for _, f := range fr.Decl.Type.Params.List {
+		for _, nm := range f.Names {
+			pnames = append(pnames, nm.Name)
+		}
+	}
+	if len(pnames) < 2 {
+		return
+	}
+	aName, bName := pnames[0], pnames[1]
+	var loop *ast.RangeStmt
+	ast.Inspect(fr.Decl.Body, func(x ast.Node) bool {
+		if r, ok := x.(*ast.RangeStmt); ok && loop == nil {
+			loop = r
+		}
+		return true
+	})
+	if loop == nil {
+		w.undecided("nesting-strict|loop", fr.Decl.Pos(), "no loop over the sets in Nesting.Insert")
+		return
+	}
+	mentions := func(n ast.Node, name string) bool {
+		hit := false
+		ast.Inspect(n, func(y ast.Node) bool {
+			if s, ok := y.(*ast.SelectorExpr); ok && s.Sel.Name == name {
+				hit = true
+			}
+			return !hit
+		})
+		return hit
+	}
+	// the decision after a successful Seek(end): the statements that follow the `if !iter.Seek(end)` block
+	var decision []ast.Stmt
+	seenSeek := false
+	for _, st := range loop.Body.List {
+		if ifs, ok := st.(*ast.IfStmt); ok && !seenSeek && mentions(ifs.Cond, "Seek") {
+			seenSeek = true
+			continue
+		}
+		if seenSeek {
+			decision = append(decision, st)
+		}
+	}
+	if !seenSeek || len(decision) == 0 {
+		w.undecided("nesting-strict|decision", loop.Pos(), "cannot find the statements that follow Seek(end) in Nesting.Insert")
+		return
+	}
+	// interpret the decision on one model point; returns "accept", "reject" or "?"
+	type point struct {
+		a, b, c, d int64
+		hasPrev    bool
+		p, q       int64
+	}
+	run := func(pt point) string {
+		atPrev := false
+		locals := map[string]num{}
+		mkEnv := func() *numEnv {
+			env := &numEnv{info: info, vars: map[string]num{aName: {i: pt.a}, bName: {i: pt.b}}}
+			for k, v := range locals {
+				env.vars[k] = v
+			}
+			if atPrev {
+				env.vars["iter.Value().Start"], env.vars["iter.Value().End"] = num{i: pt.p}, num{i: pt.q}
+			} else {
+				env.vars["iter.Value().Start"], env.vars["iter.Value().End"] = num{i: pt.c}, num{i: pt.d}
+			}
+			return env
+		}
+		var evalCond func(e ast.Expr) (bool, bool)
+		evalCond = func(e ast.Expr) (bool, bool) {
+			e = ast.Unparen(e)
+			if be, ok := e.(*ast.BinaryExpr); ok && (be.Op == token.LAND || be.Op == token.LOR) {
+				l, ok := evalCond(be.X)
+				if !ok {
+					return false, false
+				}
+				if be.Op == token.LAND && !l {
+					return false, true
+				}
+				if be.Op == token.LOR && l {
+					return true, true
+				}
+				return evalCond(be.Y)
+			}
+			if ue, ok := e.(*ast.UnaryExpr); ok && ue.Op == token.NOT {
+				v, ok := evalCond(ue.X)
+				return !v, ok
+			}
+			if c, ok := e.(*ast.CallExpr); ok {
+				if sel, ok := ast.Unparen(c.Fun).(*ast.SelectorExpr); ok && sel.Sel.Name == "Prev" {
+					atPrev = true
+					return pt.hasPrev, true
+				}
+			}
+			v, ok := mkEnv().eval(e)
+			if !ok || !v.isBool {
+				return false, false
+			}
+			return v.b, true
+		}
+		for _, st := range decision {
+			switch s := st.(type) {
+			case *ast.AssignStmt:
+				if len(s.Lhs) == 1 && len(s.Rhs) == 1 {
+					if id, ok := s.Lhs[0].(*ast.Ident); ok {
+						if id.Name == "found" {
+							return "accept"
+						}
+						v, ok := mkEnv().eval(s.Rhs[0])
+						if !ok {
+							return "?"
+						}
+						locals[id.Name] = v
+						continue
+					}
+				}
+				return "?"
+			case *ast.IfStmt:
+				if s.Init != nil || s.Else != nil {
+					return "?"
+				}
+				v, ok := evalCond(s.Cond)
+				if !ok {
+					return "?"
+				}
+				if !v {
+					continue
+				}
+				for _, b := range s.Body.List {
+					if br, ok := b.(*ast.BranchStmt); ok && br.Tok == token.CONTINUE {
+						return "reject"
+					}
+					if as, ok := b.(*ast.AssignStmt); ok && len(as.Lhs) == 1 && render(as.Lhs[0]) == "found" {
+						return "accept"
+					}
+				}
+				return "?"
+			case *ast.BranchStmt:
+				if s.Tok == token.BREAK {
+					return "accept"
+				}
+				return "?"
+			default:
+				return "?"
+			}
+		}
+		return "accept"
+	}
+	witness, undecided := "", ""
+	points := 0
+	for a := int64(0); a <= 4; a++ {
+		for b := a; b <= 4; b++ {
+			for c := int64(0); c <= 4; c++ {
+				for d := max(c, b); d <= 4; d++ { // Seek(end): the first interval whose end is >= b
+					prevs := []point{{a: a, b: b, c: c, d: d}}
+					for q := int64(0); q < b; q++ { // the previous interval ends before b
+						for p := int64(0); p <= q; p++ {
+							prevs = append(prevs, point{a, b, c, d, true, p, q})
+						}
+					}
+					for _, pt := range prevs {
+						points++
+						switch run(pt) {
+						case "?":
+							if undecided == "" {
+								undecided = fmt.Sprintf("new [%d,%d], found [%d,%d]", a, b, c, d)
+							}
+						case "accept":
+							okFound := b < c || (c < a && b < d)
+							okPrev := !pt.hasPrev || pt.q < a
+							if witness == "" && !okFound {
+								witness = fmt.Sprintf("new [%d,%d] next to [%d,%d]: neither disjoint nor strictly nested (a shared end also means the new interval replaces the other under the same key)", a, b, c, d)
+							}
+							if witness == "" && !okPrev {
+								witness = fmt.Sprintf("new [%d,%d] with the previous interval [%d,%d] of the set (found [%d,%d]): the two overlap partially", a, b, pt.p, pt.q, c, d)
+							}
+						}
+					}
+				}
+			}
+		}
+	}
+	key := "nesting-strict|found-interval"
+	switch {
+	case witness != "":
+		w.violation(key, decision[0].Pos(), "Nesting.Insert's decision after Seek(end), interpreted on a finite model, accepts "+witness+": the set then contains two intervals that are neither disjoint nor strictly nested ([0,10] then [5,10] leaves only [5,10]; [0,100], [10,21], then [15,25] puts two overlapping intervals in one set)")
+	case undecided != "":
+		w.undecided(key, decision[0].Pos(), "the decision after Seek(end) has a shape the interpreter does not model (first at "+undecided+")")
+	default:
+		w.ok(key, decision[0].Pos(), fmt.Sprintf("interpreted the decision after Seek(end) on %d model points (new, found and previous interval, endpoints 0..4): an interval is accepted only if it is left of, or strictly nested in, the found interval and does not reach the previous one", points))
+	}
+}
+
+// RUD2 (C32): the line table has an entry for the last line on every path, and both directions
+// agree on what ends a line. (a) File.lines() records one start offset per newline inside its loop
+// and one more for the text after the last newline: that final entry must be appended
+// unconditionally (not inside a loop, not under an `if`), or a text that ends in '\n' has no entry
+// for its empty last line — Location(len(text)) reports the previous line and the inverse panics.
+// (b) lines() splits at the byte it searches for; location/inverseLocation must not treat further
+// characters as line terminators: a constant cutset or suffix given to strings.Trim*/Cut* there
+// may contain only that byte ('\r' counts as a column in the forward direction, so trimming it in
+// the inverse makes the position after it unreachable).
+func rud2LineTable(w *World) {
+	w.rule("RUD2")
+	const rel = "experimental/source"
+	p := w.pkg(rel)
+	lines := w.fn(rel, "(*File).lines")
+	if p == nil || lines == nil {
+		return
+	}
+	info := p.TypesInfo
+	parents := parentMap(lines.Decl)
+	// (a) appends to the line index
+	nApp, finalOK := 0, false
+	var term []byte
+	ast.Inspect(lines.Decl.Body, func(x ast.Node) bool {
+		switch s := x.(type) {
+		case *ast.AssignStmt:
+			if len(s.Lhs) == 1 && len(s.Rhs) == 1 {
+				if sel, ok := ast.Unparen(s.Lhs[0]).(*ast.SelectorExpr); ok && sel.Sel.Name == "lineIndex" {
+					if c, ok := ast.Unparen(s.Rhs[0]).(*ast.CallExpr); ok && isBuiltinCall(info, c, "append") {
+						nApp++
+						conditional := false
+						for cur := parents[s]; cur != nil; cur = parents[cur] {
+							switch cur.(type) {
+							case *ast.ForStmt, *ast.RangeStmt, *ast.IfStmt, *ast.SwitchStmt, *ast.CaseClause:
+								conditional = true
+							case *ast.FuncLit, *ast.FuncDecl:
+								cur = nil
+							}
+							if cur == nil {
+								break
+							}
+						}
+						if !conditional {
+							finalOK = true
+						}
+					}
+				}
+			}
+		case *ast.CallExpr:
+			if f := callee(info, s); f != nil && f.Pkg() != nil && f.Pkg().Path() == "strings" && strings.HasPrefix(f.Name(), "Index") && len(s.Args) == 2 {
+				if tv, ok := info.Types[s.Args[1]]; ok && tv.Value != nil {
+					switch tv.Value.Kind() {
+					case constant.Int:
+						if v, ok := constant.Int64Val(tv.Value); ok && v < 256 {
+							term = append(term, byte(v))
+						}
+					case constant.String:
+						term = append(term, []byte(constant.StringVal(tv.Value))...)
+					}
+				}
+			}
+		}
+		return true
+	})
+	if nApp == 0 {
+		w.undecided("line-table|final-entry", lines.Decl.Pos(), "File.lines() no longer appends to lineIndex")
+	} else if finalOK {
+		w.ok("line-table|final-entry", lines.Decl.Pos(), fmt.Sprintf("of the %d appends to the line index one is unconditional: the text after the last newline (possibly empty) always has an entry", nApp))
+	} else {
+		w.violation("line-table|final-entry", lines.Decl.Pos(), "every append to the line index in File.lines() is inside a loop or under a condition: a text that ends in a newline gets no entry for its empty last line (an iterator such as strings.Lines yields nothing for it), so Location(len(text)) reports the previous line and InverseLocation of the last line indexes past the table")
+	}
+	// (b) terminators
+	if len(term) == 0 {
+		w.info("line-table|terminator", lines.Decl.Pos(), "lines() does not search for a constant terminator byte; terminator agreement not decided")
+		return
+	}
+	nTrim := 0
+	for _, name := range []string{"location", "inverseLocation"} {
+		fr := w.fnOpt(rel, name)
+		if fr == nil {
+			continue
+		}
+		for _, body := range closureBodies(w, p, fr.Obj, 1) {
+			ast.Inspect(body, func(x ast.Node) bool {
+				c, ok := x.(*ast.CallExpr)
+				if !ok {
+					return true
+				}
+				f := callee(info, c)
+				if f == nil || f.Pkg() == nil || f.Pkg().Path() != "strings" || len(c.Args) < 2 {
+					return true
+				}
+				switch f.Name() {
+				case "TrimRight", "TrimLeft", "Trim", "TrimSuffix", "TrimPrefix", "CutSuffix", "CutPrefix", "Cut":
+				default:
+					return true
+				}
+				tv, ok := info.Types[c.Args[1]]
+				if !ok || tv.Value == nil || tv.Value.Kind() != constant.String {
+					return true
+				}
+				nTrim++
+				set := constant.StringVal(tv.Value)
+				extra := ""
+				for i := 0; i < len(set); i++ {
+					if !strings.ContainsRune(string(term), rune(set[i])) {
+						extra += fmt.Sprintf("%q ", set[i])
+					}
+				}
+				key := "line-table|terminator|" + name + "|" + types.ExprString(c.Fun)
+				if extra == "" {
+					w.ok(key, c.Pos(), "only the line terminator of lines() is trimmed")
+				} else {
+					w.violation(key, c.Pos(), name+" trims "+strings.TrimSpace(extra)+" from the line, which File.lines() does not treat as a terminator and the forward direction counts as a column: the position after such a character converts to a column that the inverse maps back to a different offset")
+				}
+				return true
+			})
+		}
+	}
+	w.info("line-table|terminator|count", lines.Decl.Pos(), fmt.Sprintf("terminator %q; %d constant trims in location/inverseLocation", term, nTrim))
 }
